@@ -24,6 +24,14 @@
 // with counting interceptors), crossed with names, registry sets and transports.
 // Registry set D (two streams in one service, a stream of the same simple name
 // in another) joins the sets. The oracle is unchanged: the name alone decides.
+//
+// Server-option and registration-sequence dimensions (seqs.go): the ErrorRenderer
+// option of httpgrpc.NewServer / HandleServices (none / default / writes nothing
+// / always 200 with a body / its own 4xx) and the interceptors as a server
+// option, crossed with names, sets, carriers and base paths; and registration as
+// part of the run instead of a one-off prelude: every interleaving of up to 2
+// registrations and 3 calls on one long-lived channel / server / mux, each call
+// judged against the set registered at that moment.
 package main
 
 import (
@@ -107,6 +115,13 @@ type caseT struct {
 	// NewStream: the StreamDesc the client passes (descs.go); "" is the bare
 	// client-made one
 	Desc string `json:"desc,omitempty"`
+	// server options (seqs.go): the ErrorRenderer option handed to httpgrpc.NewServer
+	// / HandleServices; "" is no option at all
+	Renderer string `json:"renderer,omitempty"`
+	// registration sequences (seqs.go): what happened before this call on the same
+	// long-lived channel / server / mux, registrations and earlier calls in order.
+	// Set is then the set registered at the moment of this call.
+	History []stepT `json:"history,omitempty"`
 }
 
 // ---- the real thing under test ---------------------------------------------
@@ -126,6 +141,10 @@ type config struct {
 	itotal  int64 // runs of any interceptor
 	ctrs    []*int64
 	before  []int64
+	// seqs.go: registers one service of the universe on the long-lived object;
+	// runs of the ErrorRenderer option
+	register func(svc string) error
+	rendered int64
 }
 
 type recoverH struct {
@@ -145,7 +164,16 @@ func (r recoverH) ServeHTTP(w http.ResponseWriter, req *http.Request) {
 	r.h.ServeHTTP(w, req)
 }
 
-func build(transport, base, set, deco string) (cfg *config, err error) {
+func build(transport, base, set, deco string) (*config, error) {
+	return buildCfg(transport, base, set, deco, "", false)
+}
+
+// buildCfg makes one real instance. Not staged: every service of the set is
+// registered before the first call (HandleServices: one HandlerMap, one call of
+// the helper). Staged (seqs.go): the descriptors of the set are made but nothing
+// is registered; cfg.register(service) does that at any later time on the same
+// long-lived channel / server / mux.
+func buildCfg(transport, base, set, deco, renderer string, staged bool) (cfg *config, err error) {
 	defer func() {
 		if p := recover(); p != nil {
 			err = fmt.Errorf("registration panicked (precondition of the mux, not decided here): %v", p)
@@ -194,7 +222,7 @@ func build(transport, base, set, deco string) (cfg *config, err error) {
 		}
 		descs = append(descs, s.Desc())
 	}
-	cfg.buildDescs(set, descs, func(key, name string) grpc.StreamDesc {
+	cfg.buildDescs(set, descs, !staged, func(key, name string) grpc.StreamDesc {
 		fn := streamFn(key)
 		return grpc.StreamDesc{StreamName: name, ClientStreams: true, ServerStreams: true,
 			Handler: func(srv interface{}, stream grpc.ServerStream) error { return fn(stream) }}
@@ -203,42 +231,100 @@ func build(transport, base, set, deco string) (cfg *config, err error) {
 	// the decoration dimension: every service goes through this view of the registry
 	via := func(reg grpchan.ServiceRegistry) grpchan.ServiceRegistry {
 		switch deco {
-		case "":
+		case "", "option":
 			return reg
 		case "interceptor":
 			return grpchan.WithInterceptor(reg, cfg.unaryInt, cfg.streamInt)
 		}
 		panic("harness: unknown decoration " + deco)
 	}
+	// "option": the interceptors are a server option instead (seqs.go)
+	var optUnary grpc.UnaryServerInterceptor
+	var optStream grpc.StreamServerInterceptor
+	if deco == "option" {
+		optUnary, optStream = cfg.unaryInt, cfg.streamInt
+	}
+	// the ErrorRenderer option (seqs.go)
+	var hopts []httpgrpc.HandlerOption
+	if renderer != "" {
+		if transport == "inproc" {
+			return nil, fmt.Errorf("the in-process channel has no ErrorRenderer option")
+		}
+		fn := cfg.rendererFn(renderer)
+		if fn == nil {
+			return nil, fmt.Errorf("unknown renderer %q", renderer)
+		}
+		hopts = append(hopts, httpgrpc.ErrorRenderer(fn))
+	}
+	byName := map[string]*grpc.ServiceDesc{}
+	for _, d := range descs {
+		byName[d.ServiceName] = d
+	}
+	var regOne func(d *grpc.ServiceDesc)
+	finish := func() {}
 
 	var h http.Handler
 	switch transport {
 	case "inproc":
 		ch := &inprocgrpc.Channel{}
-		for _, d := range descs {
-			via(ch).RegisterService(d, common.Impl{})
+		if deco == "option" {
+			ch.WithServerUnaryInterceptor(optUnary).WithServerStreamInterceptor(optStream)
 		}
+		regOne = func(d *grpc.ServiceDesc) { via(ch).RegisterService(d, common.Impl{}) }
 		cfg.cc = ch
-		return cfg, nil
 	case "http-server":
-		s := httpgrpc.NewServer(httpgrpc.WithBasePath(base))
-		for _, d := range descs {
-			via(s).RegisterService(d, common.Impl{})
+		sopts := []httpgrpc.ServerOption{httpgrpc.WithBasePath(base)}
+		if deco == "option" {
+			sopts = append(sopts, httpgrpc.WithServerUnaryInterceptor(optUnary), httpgrpc.WithServerStreamInterceptor(optStream))
 		}
+		for _, o := range hopts {
+			sopts = append(sopts, o)
+		}
+		s := httpgrpc.NewServer(sopts...)
+		regOne = func(d *grpc.ServiceDesc) { via(s).RegisterService(d, common.Impl{}) }
 		h = s
 	case "http-mux":
-		reg := grpchan.HandlerMap{}
-		for _, d := range descs {
-			via(reg).RegisterService(d, common.Impl{})
-		}
 		mux := http.NewServeMux()
-		httpgrpc.HandleServices(mux.HandleFunc, base, reg, nil, nil)
+		if staged {
+			// the bulk-registration helper once per registration, each with a
+			// HandlerMap of its own, on the one long-lived mux
+			regOne = func(d *grpc.ServiceDesc) {
+				reg := grpchan.HandlerMap{}
+				via(reg).RegisterService(d, common.Impl{})
+				httpgrpc.HandleServices(mux.HandleFunc, base, reg, optUnary, optStream, hopts...)
+			}
+		} else {
+			reg := grpchan.HandlerMap{}
+			regOne = func(d *grpc.ServiceDesc) { via(reg).RegisterService(d, common.Impl{}) }
+			finish = func() { httpgrpc.HandleServices(mux.HandleFunc, base, reg, optUnary, optStream, hopts...) }
+		}
 		h = mux
 	default:
 		return nil, fmt.Errorf("unknown transport %q", transport)
 	}
-	cfg.rt = wireRT(recoverH{h: h, cfg: cfg}, &cfg.sent)
-	cfg.cc = cfg.client(base)
+	cfg.register = func(svc string) (err error) {
+		defer func() {
+			if p := recover(); p != nil {
+				err = fmt.Errorf("%v", p)
+			}
+		}()
+		d := byName[svc]
+		if d == nil {
+			panic("harness: no service " + svc + " in the universe " + set)
+		}
+		regOne(d)
+		return nil
+	}
+	if !staged {
+		for _, d := range descs {
+			regOne(d)
+		}
+		finish()
+	}
+	if h != nil {
+		cfg.rt = wireRT(recoverH{h: h, cfg: cfg}, &cfg.sent)
+		cfg.cc = cfg.client(base)
+	}
 	return cfg, nil
 }
 
@@ -255,10 +341,12 @@ type obsT struct {
 	Reply       string           `json:"reply,omitempty"`
 	Panic       string           `json:"panic,omitempty"`
 	Sent        int64            `json:"requests_sent"`
-	err         error
-	isStat      bool
-	code        codes.Code
-	srvSide     bool
+	// runs of the ErrorRenderer option during the call
+	Rendered int64 `json:"renderer_runs,omitempty"`
+	err      error
+	isStat   bool
+	code     codes.Code
+	srvSide  bool
 }
 
 func run(cfg *config, c caseT) (o obsT) {
@@ -281,7 +369,11 @@ func run(cfg *config, c caseT) (o obsT) {
 	cfg.srvPanic = ""
 	cfg.mu.Unlock()
 	sentBefore := atomic.LoadInt64(&cfg.sent)
-	defer func() { o.Sent = atomic.LoadInt64(&cfg.sent) - sentBefore }()
+	renderedBefore := atomic.LoadInt64(&cfg.rendered)
+	defer func() {
+		o.Sent = atomic.LoadInt64(&cfg.sent) - sentBefore
+		o.Rendered = atomic.LoadInt64(&cfg.rendered) - renderedBefore
+	}()
 	ctx, cancel := context.WithCancel(context.Background())
 	defer cancel()
 	cc := cfg.cc
@@ -549,9 +641,21 @@ func checkBase(c caseT, o obsT, class, must, may string, code *codes.Code) (clau
 }
 
 func fingerprint(c caseT, clause string, o obsT) string {
+	fp := fingerprintOfCall(c, clause, o)
+	if len(c.History) > 0 {
+		// a registration sequence: what went before on the same long-lived object
+		fp += "|after=" + historySig(c.History)
+	}
+	return fp
+}
+
+func fingerprintOfCall(c caseT, clause string, o obsT) string {
 	where := c.Transport
 	if c.Transport != "inproc" {
 		where += "|base=" + c.Base
+	}
+	if c.Renderer != "" {
+		where += "|renderer=" + c.Renderer
 	}
 	if c.ClientBase != "" {
 		where += "|client-base=" + c.ClientBase
@@ -736,8 +840,11 @@ func newSlot() *slotT {
 // what the evidence counts per (op, grammar, decoration, descriptor relation, class, outcome)
 type statKey struct {
 	op, prefix, rel, class, outcome string
-	deco                            bool
+	deco                            string
 }
+
+// the by_class_and_outcome prefix of a decoration
+var decoPrefix = map[string]string{"": "", "interceptor": "intercepted:", "option": "option-intercepted:"}
 
 type statT struct {
 	cls, smp string // keys of by_class_and_outcome and of the samples
@@ -774,6 +881,7 @@ func watchdog() {
 
 func main() {
 	debug.SetMemoryLimit(3 << 30)
+	debug.SetGCPercent(400) // the live heap is tiny; the cases allocate a lot
 	rep := vlib.NewReporter("C12")
 	go watchdog()
 	if pf := os.Getenv("VERIF_C12_CPUPROFILE"); pf != "" { // for tuning the check itself
@@ -790,20 +898,20 @@ func main() {
 			fmt.Fprintln(os.Stderr, "INCONCLUSIVE:", err)
 			os.Exit(2)
 		}
-		cfg, err := build(c.Transport, c.Base, c.Set, c.Deco)
-		if err == nil && c.Op == "NewStream" && cfg.descs[c.Desc] == nil {
-			err = fmt.Errorf("no descriptor %q in the universe of set %s", c.Desc, c.Set)
+		if len(c.History) > 0 {
+			// judged against what is registered at the moment of the call
+			c.Set = setAfter(c.History)
 		}
+		newSlot().set(c)
+		o, err := execCase(c)
 		if err != nil {
 			fmt.Fprintln(os.Stderr, "INCONCLUSIVE:", err)
 			os.Exit(2)
 		}
-		newSlot().set(c)
-		o := run(cfg, c)
 		clause, detail := check(c, o)
 		class, must, may, _ := classify(c)
-		fmt.Printf("replay: case=%+v class=%s must=%q may=%q descriptor=%s\n  observed: ran=%v intercepted=%v err=%q code=%s reply=%q panic=%q\n  verdict: %s %s\n",
-			c, class, must, may, descRelation(c.Set, c.Desc, c.Name), o.Ran, o.Intercepted, o.Err, o.Code, o.Reply, o.Panic, clause, detail)
+		fmt.Printf("replay: case=%+v class=%s must=%q may=%q descriptor=%s\n  observed: ran=%v intercepted=%v renderer_runs=%d err=%q code=%s reply=%q panic=%q\n  verdict: %s %s\n",
+			c, class, must, may, descRelation(c.Set, c.Desc, c.Name), o.Ran, o.Intercepted, o.Rendered, o.Err, o.Code, o.Reply, o.Panic, clause, detail)
 		if clause != "" {
 			fmt.Printf("VIOLATION property=C12 replay=%s\n", p)
 			os.Exit(1)
@@ -841,6 +949,10 @@ func main() {
 		fmt.Fprintln(os.Stderr, "INCONCLUSIVE: self-test of the descriptor / decoration dimensions failed:", msg)
 		os.Exit(2)
 	}
+	if msg := selfTestSeqs(); msg != "" {
+		fmt.Fprintln(os.Stderr, "INCONCLUSIVE: self-test of the server-option / registration-sequence dimensions failed:", msg)
+		os.Exit(2)
+	}
 	// shorter name lists for the parts of the new dimensions that are swept rather
 	// than crossed: the core names, and (thorough tier) the quick tier's whole list
 	core := namesOf(3, false)
@@ -865,8 +977,14 @@ func main() {
 		ts     *tokenSpace
 		op     string
 		lo, hi int64
-		res    []result // violations only
-		more   int      // violations beyond maxResPerJob (not kept)
+		// the ErrorRenderer option of the instance (seqs.go)
+		renderer string
+		// registration-sequence jobs (seqs.go): every case builds its own instance
+		seq    *seqJobT
+		dur    time.Duration // for tuning the check itself (VERIF_C12_TIMING)
+		seqNew int           // cases whose call names a service that an earlier call named before it was registered
+		res    []result      // violations only
+		more   int           // violations beyond maxResPerJob (not kept)
 		n      int
 		cls    map[string]int
 		nt     int
@@ -931,7 +1049,7 @@ func main() {
 		}
 	}
 	const slice = 60000
-	addTok := func(tr transportT, ts *tokenSpace, from int64, descs bool) {
+	addTok := func(tr transportT, ts *tokenSpace, from int64, descs bool, renderer ...string) {
 		for _, op := range ops {
 			if descs && op != "NewStream" {
 				continue
@@ -939,6 +1057,9 @@ func main() {
 			for lo := from; lo < ts.size(); lo += slice {
 				j := newJob(tr, "T", "", nil)
 				j.ts, j.op, j.lo, j.hi, j.descs = ts, op, lo, lo+slice, descs
+				if len(renderer) > 0 {
+					j.renderer = renderer[0]
+				}
 				if j.hi > ts.size() {
 					j.hi = ts.size()
 				}
@@ -956,6 +1077,94 @@ func main() {
 			addTok(tr, toksLong, toksLong.offs[toksLong.maxLen], true)
 		}
 	}
+	// server options (seqs.go). The ErrorRenderer option: every HTTP carrier and
+	// base path x every renderer x the sets none, AB, D (thorough: every set) x
+	// the core names (set D with the quick tier's whole list on the root base
+	// path; thorough: where the long token strings run), and (thorough) the token
+	// grammar where the long token strings run
+	rendererSets := []string{"none", "AB", "D"}
+	var toksRenderer *tokenSpace
+	if rep.Tier == "thorough" {
+		rendererSets = setOrder
+		toksRenderer = newTokenSpace(tokenAlphabet(false), 4) // the quick tier's long layer and below
+	}
+	for _, tr := range trs {
+		if tr.kind == "inproc" {
+			continue
+		}
+		for _, r := range renderers {
+			for _, set := range rendererSets {
+				if set == "D" && (tr.base == "/" || (rep.Tier == "thorough" && longOn[tr])) {
+					newJob(tr, set, "", midList).renderer = r
+				} else {
+					newJob(tr, set, "", core).renderer = r
+				}
+			}
+			if tr.base == "/" && rep.Tier == "thorough" {
+				addTok(tr, toksRenderer, 0, false, r)
+			}
+		}
+	}
+	// the interceptors as a server option: the two richest registries, the whole
+	// name list in-process, the core names on the HTTP carriers
+	for _, tr := range trs {
+		for _, set := range richSets {
+			if tr.kind == "inproc" {
+				newJob(tr, set, "option", nameList)
+			} else {
+				newJob(tr, set, "option", core)
+			}
+		}
+	}
+	// registration sequences (seqs.go): one job per (instance kind, first step)
+	var seqExpected int64
+	seqGrammars := map[string]int{} // grammar -> number of instances (base paths) it runs on
+	addSeq := func(tr transportT, deco, renderer string, size, maxRegs, minCalls, maxCalls int) {
+		q := seqJobT{alpha: seqAlphabet(size), size: size, maxRegs: maxRegs, minCalls: minCalls, maxCalls: maxCalls}
+		for f := range q.firstSteps() {
+			qf := q
+			qf.first = f
+			j := newJob(tr, "seq", deco, nil)
+			j.renderer, j.seq = renderer, &qf
+		}
+		seqExpected += seqCases(len(q.alpha), len(seqServices()), maxRegs, minCalls, maxCalls)
+		seqGrammars[fmt.Sprintf("%s decoration=%q renderer=%q: alphabet %d (%d call symbols), <=%d registrations, %d..%d calls, %d cases per instance", tr.kind, deco, renderer, size, len(q.alpha), maxRegs, minCalls, maxCalls,
+			seqCases(len(q.alpha), len(seqServices()), maxRegs, minCalls, maxCalls))]++
+	}
+	// which alphabet where: the biggest in-process and on the root base path
+	// (thorough: alphabet 1 on the other base paths where the long token strings
+	// run), alphabet 0 elsewhere; crossed with the ErrorRenderer option on the root
+	// base path (thorough: also where the long token strings run)
+	seqBig, seqRenderer := 1, 0
+	if rep.Tier == "thorough" {
+		seqBig, seqRenderer = 2, 1
+	}
+	for _, tr := range trs {
+		root := tr.base == "/"
+		switch {
+		case tr.kind == "inproc":
+			for _, deco := range []string{"", "interceptor", "option"} {
+				addSeq(tr, deco, "", seqBig, 2, 1, 3)
+			}
+			if rep.Tier == "thorough" {
+				addSeq(tr, "", "", 1, 2, 4, 4) // one more call over the quick tier's alphabet
+			}
+			continue
+		case root:
+			addSeq(tr, "", "", seqBig, 2, 1, 3)
+		case rep.Tier == "thorough" && longOn[tr]:
+			addSeq(tr, "", "", 1, 2, 1, 3)
+		default:
+			addSeq(tr, "", "", 0, 2, 1, 3)
+		}
+		for _, r := range renderers {
+			if root {
+				addSeq(tr, "", r, seqRenderer, 2, 1, 3)
+			} else if rep.Tier == "thorough" && longOn[tr] {
+				addSeq(tr, "", r, 0, 2, 1, 3)
+			}
+		}
+	}
 	var wg sync.WaitGroup
 	workers := runtime.NumCPU()
 	if workers < 4 {
@@ -968,12 +1177,19 @@ func main() {
 			defer wg.Done()
 			sem <- struct{}{}
 			defer func() { <-sem }()
-			cfg, err := build(j.tr.kind, j.tr.base, j.set, j.deco)
-			if err != nil {
-				j.err = err
-				return
+			t0 := time.Now()
+			defer func() { j.dur = time.Since(t0) }()
+			var cfg *config
+			var otherDescs []string
+			if j.seq == nil {
+				var err error
+				cfg, err = buildCfg(j.tr.kind, j.tr.base, j.set, j.deco, j.renderer, false)
+				if err != nil {
+					j.err = err
+					return
+				}
+				otherDescs = cfg.descIDs[1:] // [0] is the bare one
 			}
-			otherDescs := cfg.descIDs[1:] // [0] is the bare one
 			slot := newSlot()
 			stats := map[statKey]*statT{}
 			defer func() {
@@ -984,14 +1200,22 @@ func main() {
 					}
 				}
 			}()
-			one := func(c caseT, prefix string, minSlashes int, nearMiss bool) {
+			one := func(c caseT, prefix string, minSlashes int, nearMiss bool) (o obsT) {
 				class, must, may, code := classify(c)
-				sk := statKey{op: c.Op, prefix: prefix, class: class, deco: c.Deco != ""}
+				sk := statKey{op: c.Op, prefix: prefix, class: class, deco: c.Deco}
 				if c.Desc != "" {
 					sk.rel = descRelation(c.Set, c.Desc, c.Name)
 				}
 				slot.set(c)
-				o := run(cfg, c)
+				if j.seq != nil {
+					// a fresh long-lived object per case: the history is played on it first
+					var err error
+					if o, err = execCase(c); err != nil && j.err == nil {
+						j.err = err
+					}
+				} else {
+					o = run(cfg, c)
+				}
 				atomic.AddInt64(&progress, 1)
 				j.n++
 				sk.outcome = "clean-failure"
@@ -1003,10 +1227,7 @@ func main() {
 				}
 				st := stats[sk]
 				if st == nil {
-					full := prefix
-					if sk.deco {
-						full += "intercepted:"
-					}
+					full := prefix + decoPrefix[sk.deco]
 					if sk.rel != "" {
 						full += "desc=" + sk.rel + ":"
 					}
@@ -1015,11 +1236,19 @@ func main() {
 					stats[sk] = st
 				}
 				st.n++
-				if j.set != "none" {
+				if c.Set != "none" {
 					j.nt++
 				}
 				if clause, detail := checkAs(c, o, class, must, may, code); clause != "" {
-					if len(j.res) < maxResPerJob {
+					if j.seq != nil {
+						// reduced to a minimal history; the same reduced case only once
+						if r, isNew := j.seq.reduce(c, o, clause, detail); !isNew {
+						} else if len(j.res) < maxResPerJob {
+							j.res = append(j.res, r)
+						} else {
+							j.more++
+						}
+					} else if len(j.res) < maxResPerJob {
 						j.res = append(j.res, result{c, o, clause, detail})
 					} else {
 						j.more++
@@ -1031,17 +1260,37 @@ func main() {
 				if nearMiss {
 					// an unregistered name that decodes / truncates to a registered one
 					j.near++
-					if k := "near-miss/" + c.Op + "/" + j.tr.kind + "/" + prefix + map[bool]string{true: "intercepted:"}[sk.deco]; j.smp[k] == nil && strings.HasPrefix(c.Name, "/") {
+					if k := "near-miss/" + c.Op + "/" + j.tr.kind + "/" + prefix + decoPrefix[sk.deco]; j.smp[k] == nil && strings.HasPrefix(c.Name, "/") {
 						j.smp[k] = map[string]interface{}{"case": c, "class": class, "near_miss": true, "observed": o}
 					}
 				}
+				return o
 			}
 			defer slot.clear()
+			if j.seq != nil {
+				j.seq.enumerate(func(hist []stepT, call stepT) {
+					c := caseT{Transport: j.tr.kind, Base: j.tr.base, Set: setAfter(hist), Deco: j.deco, Renderer: j.renderer, Op: call.Op, Name: call.Name,
+						History: append([]stepT(nil), hist...)}
+					o := one(c, "seq:", 0, false)
+					if probedBeforeRegistered(hist, call) {
+						// the call names a service that was probed before it was registered
+						j.seqNew++
+						if k := "late-registration/" + c.Op + "/" + j.tr.kind + "/" + decoPrefix[j.deco]; j.smp[k] == nil && len(o.Ran) > 0 && len(hist) >= 3 {
+							j.smp[k] = map[string]interface{}{"case": c, "class": "registered", "probed_before_registered": true, "observed": o}
+						}
+					}
+				})
+				return
+			}
+			rprefix := ""
+			if j.renderer != "" {
+				rprefix = "renderer:"
+			}
 			if j.ts != nil {
 				for i := j.lo; i < j.hi; i++ {
-					c := caseT{Transport: j.tr.kind, Base: j.tr.base, Set: j.set, Op: j.op, Name: j.ts.name(i)}
+					c := caseT{Transport: j.tr.kind, Base: j.tr.base, Set: j.set, Renderer: j.renderer, Op: j.op, Name: j.ts.name(i)}
 					if !j.descs {
-						one(c, "tokens:", 2, decodesToRegistered(c.Set, c.Op, c.Name))
+						one(c, rprefix+"tokens:", 2, decodesToRegistered(c.Set, c.Op, c.Name))
 						continue
 					}
 					for _, id := range otherDescs {
@@ -1061,13 +1310,13 @@ func main() {
 			}
 			for _, op := range ops {
 				for _, name := range j.names {
-					c := caseT{Transport: j.tr.kind, Base: j.tr.base, Set: j.set, Deco: j.deco, Op: op, Name: name}
-					one(c, "", 2, decodesToRegistered(c.Set, c.Op, c.Name))
+					c := caseT{Transport: j.tr.kind, Base: j.tr.base, Set: j.set, Deco: j.deco, Renderer: j.renderer, Op: op, Name: name}
+					one(c, rprefix, 2, decodesToRegistered(c.Set, c.Op, c.Name))
 				}
 			}
 			// cross-mount: same server, the client configured with every base path
 			// of the alphabet that denotes another mount; the registered full names
-			if j.tr.kind != "inproc" && j.deco == "" && (j.set == "AB" || j.set == "D") {
+			if j.tr.kind != "inproc" && j.deco == "" && j.renderer == "" && (j.set == "AB" || j.set == "D") {
 				for _, cb := range basePaths(rep.Tier) {
 					if path.Clean(cb) == path.Clean(j.tr.base) {
 						continue
@@ -1082,9 +1331,30 @@ func main() {
 		}(ji, j)
 	}
 	wg.Wait()
+	if os.Getenv("VERIF_C12_TIMING") != "" {
+		kinds := map[string]time.Duration{}
+		kindN := map[string]int{}
+		for _, j := range jobs {
+			k := "plain"
+			switch {
+			case j.seq != nil:
+				k = "seq/" + j.tr.kind + "/r=" + j.renderer + "/d=" + j.deco
+			case j.renderer != "":
+				k = "renderer"
+			case j.deco == "option":
+				k = "option"
+			}
+			kinds[k] += j.dur
+			kindN[k] += j.n
+		}
+		for k, d := range kinds {
+			fmt.Fprintf(os.Stderr, "timing %-40s %8.1fs cpu-ish %9d evals\n", k, d.Seconds(), kindN[k])
+		}
+	}
 
 	evals, nontrivial, near, nearTok, tokEvals, truncated, tokJobs := 0, 0, 0, 0, 0, 0, 0
 	descEvals, descHandlerEvals, decoEvals := 0, 0, 0
+	rendererEvals, optionEvals, seqEvals, seqLate := 0, 0, 0, 0
 	configs := map[string]bool{}
 	classes := map[string]int{}
 	var samples []interface{}
@@ -1096,7 +1366,17 @@ func main() {
 		}
 		evals += j.n
 		nontrivial += j.nt
-		configs[fmt.Sprint(j.tr, "|", j.set, "|", j.deco)] = true
+		configs[fmt.Sprint(j.tr, "|", j.set, "|", j.deco, "|", j.renderer)] = true
+		if j.renderer != "" {
+			rendererEvals += j.n
+		}
+		if j.deco == "option" {
+			optionEvals += j.n
+		}
+		if j.seq != nil {
+			seqEvals += j.n
+			seqLate += j.seqNew
+		}
 		if j.descs {
 			descEvals += j.n
 			ids := descIDs(j.set)[1:]
@@ -1122,13 +1402,14 @@ func main() {
 			classes[k] += v
 		}
 		for k, v := range j.smp {
-			if (j.set == "AB" || j.set == "T" || (j.set == "D" && j.descs)) && j.tr.base != "/" && allSmp[k] == nil {
+			if (j.set == "AB" || j.set == "T" || (j.set == "D" && j.descs) || j.seq != nil) && j.tr.base != "/" && allSmp[k] == nil {
 				allSmp[k] = v
 			}
 		}
 		for _, r := range j.res {
 			rep.Violation(fingerprint(r.c, r.clause, r.o), fmt.Sprintf("%s %s %q on %s base=%q set=%s%s: %s: %s", r.c.Op, "name", r.c.Name, r.c.Transport, r.c.Base+map[bool]string{true: "\" client-base=\"" + r.c.ClientBase}[r.c.ClientBase != ""], r.c.Set,
-				map[bool]string{true: " registered through WithInterceptor"}[r.c.Deco != ""]+map[bool]string{true: " descriptor=" + r.c.Desc + " (" + descRelation(r.c.Set, r.c.Desc, r.c.Name) + ")"}[r.c.Desc != ""], r.clause, r.detail), r.c)
+				map[string]string{"interceptor": " registered through WithInterceptor", "option": " with the server interceptor options"}[r.c.Deco]+map[bool]string{true: " descriptor=" + r.c.Desc + " (" + descRelation(r.c.Set, r.c.Desc, r.c.Name) + ")"}[r.c.Desc != ""]+
+					map[bool]string{true: " ErrorRenderer option=" + r.c.Renderer}[r.c.Renderer != ""]+map[bool]string{true: " after [" + historySig(r.c.History) + "] on the same instance"}[len(r.c.History) > 0], r.clause, r.detail), r.c)
 		}
 	}
 	if truncated > 0 {
@@ -1142,7 +1423,15 @@ func main() {
 	for i, k := range smpKeys {
 		// a handful: every third (class, outcome, transport, op) representative,
 		// and the first near-miss of the escape dimension per (op, transport, grammar)
-		if strings.HasPrefix(k, "near-miss/") {
+		if strings.HasPrefix(k, "late-registration/") {
+			samples = append(samples, allSmp[k])
+		} else if strings.Contains(k, "renderer:") || strings.Contains(k, "seq:") || strings.Contains(k, "option-intercepted:") {
+			// the server-option and registration-sequence dimensions: an unknown name
+			// with a renderer, per op and carrier (a sequence case: in-process)
+			if (strings.HasSuffix(k, "/renderer:unknown/clean-failure") || (strings.HasSuffix(k, "/seq:unknown/clean-failure") && strings.Contains(k, "/inproc/"))) && !strings.HasPrefix(k, "near-miss/") {
+				samples = append(samples, allSmp[k])
+			}
+		} else if strings.HasPrefix(k, "near-miss/") {
 			samples = append(samples, allSmp[k])
 		} else if strings.Contains(k, "desc=") || strings.Contains(k, "intercepted:") {
 			// the descriptor / decoration dimensions: the cases where a handler ran
@@ -1196,6 +1485,35 @@ func main() {
 			}
 		}
 	}
+	// the server-option and the registration-sequence dimensions are populated
+	// (about the grammar), and on a tree without violations the handlers are reached
+	// there, also by calls to a service that was probed before it was registered
+	if int64(seqEvals) != seqExpected {
+		fmt.Fprintf(os.Stderr, "INCONCLUSIVE: %d sequence cases were run, the grammar has %d\n", seqEvals, seqExpected)
+		os.Exit(2)
+	}
+	if rep.Tier == "thorough" && populated["renderer:tokens:unknown"] == 0 {
+		fmt.Fprintln(os.Stderr, "INCONCLUSIVE: the token grammar is not crossed with the ErrorRenderer option")
+		os.Exit(2)
+	}
+	for _, k := range []string{"renderer:registered", "renderer:unknown", "renderer:malformed", "option-intercepted:registered", "option-intercepted:unknown", "seq:registered", "seq:unknown", "seq:malformed"} {
+		if populated[k] == 0 {
+			fmt.Fprintf(os.Stderr, "INCONCLUSIVE: the server-option / registration-sequence dimension is not populated: no case of %s\n", k)
+			os.Exit(2)
+		}
+	}
+	if seqLate == 0 {
+		fmt.Fprintln(os.Stderr, "INCONCLUSIVE: no sequence case calls a service that was probed before it was registered")
+		os.Exit(2)
+	}
+	if rep.Violations == 0 && rep.KnownHits == 0 {
+		for _, k := range []string{"renderer:registered/handler-ran", "option-intercepted:registered/handler-ran", "seq:registered/handler-ran", "seq:intercepted:registered/handler-ran", "seq:option-intercepted:registered/handler-ran"} {
+			if classes[k] == 0 {
+				fmt.Fprintf(os.Stderr, "INCONCLUSIVE: no case of %s; the harness is broken\n", k)
+				os.Exit(2)
+			}
+		}
+	}
 	if nearTok == 0 || near == nearTok {
 		fmt.Fprintln(os.Stderr, "INCONCLUSIVE: the grammars contain no unregistered name that decodes to a registered one; the escape dimension is empty")
 		os.Exit(2)
@@ -1218,6 +1536,8 @@ func main() {
 			"(2) token grammar (character granularity, escapes): registry {s(m unary, t stream)}, whose full names are 4 tokens long; " + tokRule + ", x {Invoke, NewStream}; the alphabet is derived from the registry: '/', every character of the registered names, '.', the percent-escape of each of these in upper-case hex (and, where the alphabet above lists them, lower-case hex), %25, the invalid escapes %zz and a bare %, and ? # + space. " +
 			"(3) decoration dimension: how the services got into the registry: RegisterService directly (everything above) or through grpchan.WithInterceptor with counting unary and stream interceptors (per-FullMethod counters); sets AB and D x {Invoke, NewStream} x every transport and base path, with the whole name list of (1) in-process, with " + midDesc + " on both HTTP carriers with base paths /, /foo/, /c%d/x and with the core names elsewhere (core names: every string of 1..3 segments, the prefixes and suffixes of D's full names, each full name of D with one more segment before or after it: " + fmt.Sprint(len(core)) + " names). Added oracle: in a decorated registry the interceptor runs, with the registered full name, exactly as often as the handler (the registered handler is the intercepting wrapper), and not at all for names that run no handler. " +
 			"(4) descriptor dimension: what the client passes to NewStream as *grpc.StreamDesc; (1) and (2) use the bare client-made one (StreamName x, no Handler). The other descriptors, derived from the registry universe (D for the segment grammar " + fmt.Sprint(descIDs("D")[1:]) + ", T for the token grammar " + fmt.Sprint(descIDs("T")[1:]) + "): client:<n> client-made without Handler with StreamName n in {empty, each stream's simple name, a unary method's simple name}; raw:<svc>/<stream> the very element of the ServiceDesc.Streams slice handed to RegisterService, for every stream of the universe (for a set that registers the stream it is the registered descriptor: the named method's own, or another method's / another service's; for a set that does not, and for the raw descriptor of a service registered through WithInterceptor, its Handler is registered nowhere); twin: same service and stream name as a registered one, another handler, registered nowhere; foreign: two descriptors of a service registered nowhere, one with a registered stream's simple name, one with an unknown one. Every handler has its own counter. Crossed with: in-process: every set x {plain, WithInterceptor} x the whole name list of (1), and the whole token grammar of (2) (plain); HTTP (where the descriptor never crosses the wire): every carrier and base path x set D x {plain, WithInterceptor} x the core names (thorough tier: x " + midDesc + " on the carriers with base paths /, /foo/, /c%d/x). Oracle unchanged: the name alone decides, whatever the descriptor. by_class_and_outcome prefixes: desc=<relation of the descriptor to the name: client-named | own | other-registered | unregistered>:, intercepted: for a decorated registry. " +
+			"(5) server-option dimension (seqs.go). (a) the ErrorRenderer handler option, as httpgrpc.NewServer's option and as HandleServices' option: (1)-(4) use none; the other values " + fmt.Sprint(renderers) + ": default = httpgrpc.DefaultErrorRenderer passed explicitly, noop = writes nothing, ok-body = answers every failure 200 with a JSON body, own-4xx = answers every failure 422 with a text body (each counts its runs). Crossed with: both HTTP carriers x every base path x sets " + fmt.Sprint(rendererSets) + " x {Invoke, NewStream} x the core names (set D: " + midDesc + " on the root base path" + map[bool]string{true: " and on /foo/, /c%d/x; plus every string of 0..4 tokens of (2)'s upper-case-hex alphabet on the root base path"}[rep.Tier == "thorough"] + "). Oracle unchanged: whatever the renderer, an unknown or malformed name gives a status error (NotFound for unknown) and runs no handler, a registered name runs its handler and succeeds. (b) the interceptors as a server option (decoration \"option\": inprocgrpc.Channel.WithServer*Interceptor, httpgrpc.WithServer*Interceptor, HandleServices' interceptor arguments) instead of grpchan.WithInterceptor: sets AB and D x {Invoke, NewStream} x every transport and base path, the whole name list of (1) in-process, the core names over HTTP; oracle of (3). by_class_and_outcome prefixes renderer: and option-intercepted:. " +
+			"(6) registration-sequence dimension (seqs.go): (1)-(5) register every service before the first call. Here a case is (history, call) on ONE long-lived instance built with nothing registered: the history is any interleaving of registrations (the services of D, each at most once, in any order; in-process Channel.RegisterService, Server.RegisterService, or HandleServices on the same ServeMux once per registration with a HandlerMap holding that service) and earlier calls; every sequence of at most 2 registrations and at most 3 calls" + map[bool]string{true: " (in-process, plain: 4 calls over alphabet 1)"}[rep.Tier == "thorough"] + " that ends in a call is a case (so every interleaving, probes of not-yet-registered names included; trailing registrations change nothing observable). Each case runs on a fresh instance; the last call is judged, against the set registered AT THAT MOMENT (none, {pkg.A}, {pkg.B}, D), by the oracle of (1). Call alphabets derived from D, each name x {Invoke, NewStream}: alphabet 0 = {/pkg.A/M, /pkg.A/S, /pkg.B/M, /pkg.F/M}; alphabet 1 = per service its first unary, first stream and an unknown method, plus /pkg.F/M and the malformed /pkg.A; alphabet 2 = the six full names of D, per service an unknown method, /pkg.F/M, /pkg.A, /pkg.A/M/x. Which alphabet where: sequence_grammars (in-process also with both decorations; the root base path with the biggest alphabet and, with a smaller one, crossed with every renderer of (5)" + map[bool]string{true: "; /foo/ and /c%d/x with alphabet 1 and, with alphabet 0, crossed with every renderer"}[rep.Tier == "thorough"] + "; every other base path with alphabet 0). A violating case is reduced to a 1-minimal history before it is reported (steps dropped while the same clause is still violated; the reduced case is a member of the grammar). by_class_and_outcome prefix seq:; sequence_cases_probed_before_registered counts the cases whose call names a registered service that an earlier call of the history named before it was registered. " +
 			"Oracle in all: a handler runs only for the exact string /<registered service>/<registered method> (names that merely percent-decode to one, or are cut to one at ? or #, are unknown: NotFound / Unimplemented, zero handler runs). " +
 			"A case is non-trivial when the lookup ran against a non-empty registry (set != none), i.e. the name was actually matched against registered services/methods; each case is distinct by (transport, base, set, decoration, op, descriptor, name). by_class_and_outcome gives the measured split (token grammar classes are prefixed tokens:); near_miss_cases counts the cases whose name is not registered but becomes a registered full name of the right arity when its escapes are decoded once or it is cut at the first ? or #.",
 		"by_class_and_outcome":   classes,
@@ -1234,6 +1554,12 @@ func main() {
 		"descriptor_evaluations": descEvals,
 		"descriptor_evaluations_with_handler_carrying_descriptor": descHandlerEvals,
 		"decorated_registry_evaluations":                          decoEvals,
+		"renderers":                                               renderers,
+		"renderer_option_evaluations":                             rendererEvals,
+		"interceptor_option_evaluations":                          optionEvals,
+		"sequence_cases":                                          seqEvals,
+		"sequence_cases_probed_before_registered":                 seqLate,
+		"sequence_grammars":                                       seqGrammars,
 		"core_names":                                              len(core),
 		"mid_names":                                               len(midList),
 		"jobs":                                                    len(jobs),
@@ -1249,6 +1575,8 @@ func main() {
 		"an unknown name that the HTTP client refuses before sending anything (no request reached the carrier) may carry any non-OK status code instead of NotFound",
 		"the descriptor dimension is completely crossed with names, sets and decoration in-process, where the descriptor reaches the code that picks the handler; over HTTP the descriptor cannot cross the wire, so there it is swept over the richest set D with a shorter name list on every carrier and base path; the decoration dimension is crossed with the token grammar nowhere",
 		"every descriptor of the dimension has ClientStreams and ServerStreams set, like the bare one (the flags legitimately steer the client side of the stream)",
+		"the ErrorRenderer option is crossed with every base path, carrier and op but with the core names only (the whole list for set D on the root base path), with sets none/AB/D in the quick tier, and with the token grammar in the thorough tier only; it is not crossed with the descriptor and decoration dimensions; the handlers of the check never fail, so a renderer only ever runs if the library routes a name failure through it",
+		"registration sequences: at most 2 registrations (the two services of D, each once; registering a service twice is refused by the library) and 3 calls; the bigger call alphabets run in-process and on the root base path (thorough: alphabet 1 also on /foo/ and /c%d/x), the 8-symbol alphabet on every other base path; bare client-made StreamDesc only; unregistering does not exist in the library; concurrent registration and calls are not explored (sequential histories)",
 		"the token grammar runs against its own minimal registry {s: m, t}, not crossed with the registry sets of the segment grammar; the single-edit sweep covers the escape dimension for the pkg.A/pkg.B registries on every configuration, but only one edit at a time",
 	}))
 }
